@@ -14,6 +14,15 @@
 (*                                                                         *)
 (* Raw frames (Raws) are what a peer can write on a connection without     *)
 (* going through bus.Client: posts and the six other message kinds.        *)
+(*                                                                         *)
+(* Several bus.Client objects may share one end point (EpOf not injective): *)
+(* bus.NewClientObject (bus/object.go l.404-410) builds one NewClient per   *)
+(* client-hosted object on the connection of the peer that hosts them, each *)
+(* with a message id counter of its own starting at 1.  Calls of different  *)
+(* clients then carry EQUAL ids; what keeps their answers apart is the rest *)
+(* of the reply filter: service, object and action (client.go l.63-69).     *)
+(* Deviations of the filter and of the drop step of a saturated end point   *)
+(* are named (Deviations), off in the property-checking configurations.     *)
 (***************************************************************************)
 EXTENDS Server
 
@@ -22,7 +31,17 @@ CONSTANTS
   ClientOf,   \* Calls -> bus.Client objects
   EpOf,       \* bus.Client -> connection (several clients may share one endpoint)
   SvcOf, ObjOf, ActOf,   \* target of each call
-  Raws        \* raw frames: [tag, conn, type, svc, obj, act, id, pl]
+  Raws,       \* raw frames: [tag, conn, type, svc, obj, act, id, pl]
+  Deviations  \* names of the deviations switched on ({} : the code as it is)
+
+(* the reply filter of client.Call leaves one of its four comparisons out *)
+Dev_FilterIgnoresService == "FilterIgnoresService" \in Deviations
+Dev_FilterIgnoresObject  == "FilterIgnoresObject" \in Deviations
+Dev_FilterIgnoresAction  == "FilterIgnoresAction" \in Deviations
+Dev_FilterIgnoresId      == "FilterIgnoresId" \in Deviations
+(* the drop step of endPoint.dispatch (full consumer queue) answers what it must not answer *)
+Dev_DroppedPostAnswered      == "DroppedPostAnswered" \in Deviations
+Dev_DroppedCallAnsweredTwice == "DroppedCallAnsweredTwice" \in Deviations
 
 Clients == {ClientOf[k] : k \in Calls}
 ConnOf(k) == EpOf[ClientOf[k]]
@@ -33,10 +52,13 @@ VARIABLES
   ctr,      \* ctr[cl]: client.messageID
   hnd,      \* hnd[c]: calls whose single-shot reply handler is in the endpoint table of c
   outcome,  \* outcome[k]: what Call returned, as a sequence (the property wants length <= 1)
-  rawSent   \* tags of the raw frames written so far
+  rawSent,  \* tags of the raw frames written so far
+  owed,     \* history: owed[c] = tags of the Calls written on c whose answer frame the server has not written yet
+  unowed    \* history: the server wrote a frame on some connection that no Call was owed
 
-cliVars == <<cst, mid, ctr, hnd, outcome, rawSent>>
-svars   == <<netVars, srvVars, histVars, sent, cliVars>>
+cliVars  == <<cst, mid, ctr, hnd, outcome, rawSent>>
+wireVars == <<owed, unowed>>
+svars    == <<netVars, srvVars, histVars, sent, cliVars, wireVars>>
 
 SysInit ==
   /\ SrvInit /\ sent = 0
@@ -46,6 +68,8 @@ SysInit ==
   /\ hnd = [c \in Conns |-> {}]
   /\ outcome = [k \in Calls |-> <<>>]
   /\ rawSent = {}
+  /\ owed = [c \in Conns |-> {}]
+  /\ unowed = FALSE
 
 srvAll == <<srvVars, histVars, sent>>
 
@@ -55,14 +79,14 @@ NextID(k) ==
   /\ ctr' = [ctr EXCEPT ![ClientOf[k]] = @ + 2]
   /\ mid' = [mid EXCEPT ![k] = ctr[ClientOf[k]] + 2]
   /\ cst' = [cst EXCEPT ![k] = "ided"]
-  /\ UNCHANGED <<netVars, srvAll, hnd, outcome, rawSent>>
+  /\ UNCHANGED <<netVars, srvAll, hnd, outcome, rawSent, wireVars>>
 
 (* endpoint.MakeHandler(filter, reply, closer): "1. starts listening for an answer" *)
 Register(k) ==
   /\ cst[k] = "ided"
   /\ hnd' = [hnd EXCEPT ![ConnOf(k)] = @ \cup {k}]
   /\ cst' = [cst EXCEPT ![k] = "registered"]
-  /\ UNCHANGED <<netVars, srvAll, mid, ctr, outcome, rawSent>>
+  /\ UNCHANGED <<netVars, srvAll, mid, ctr, outcome, rawSent, wireVars>>
 
 CallMsg(k) == [type |-> "call", svc |-> SvcOf[k], obj |-> ObjOf[k], act |-> ActOf[k], id |-> mid[k],
                tag |-> k, pl |-> "ok", conn |-> ConnOf(k)]
@@ -72,7 +96,8 @@ Send(k) ==
   /\ cst[k] = "registered"
   /\ c2s' = [c2s EXCEPT ![ConnOf(k)] = Append(@, CallMsg(k))]
   /\ cst' = [cst EXCEPT ![k] = "waiting"]
-  /\ UNCHANGED <<s2c, sclosed, pclosed, srvAll, mid, ctr, hnd, outcome, rawSent>>
+  /\ owed' = [owed EXCEPT ![ConnOf(k)] = @ \cup {k}]
+  /\ UNCHANGED <<s2c, sclosed, pclosed, srvAll, mid, ctr, hnd, outcome, rawSent, unowed>>
 
 (* a peer writes a frame of its own making *)
 SendRaw(r) ==
@@ -80,13 +105,17 @@ SendRaw(r) ==
   /\ rawSent' = rawSent \cup {r.tag}
   /\ c2s' = [c2s EXCEPT ![r.conn] = Append(@, [type |-> r.type, svc |-> r.svc, obj |-> r.obj, act |-> r.act,
                                               id |-> r.id, tag |-> r.tag, pl |-> r.pl, conn |-> r.conn])]
-  /\ UNCHANGED <<s2c, sclosed, pclosed, srvAll, cst, mid, ctr, hnd, outcome>>
+  /\ owed' = IF r.type = "call" THEN [owed EXCEPT ![r.conn] = @ \cup {r.tag}] ELSE owed
+  /\ UNCHANGED <<s2c, sclosed, pclosed, srvAll, cst, mid, ctr, hnd, outcome, unowed>>
 
 (* client side endpoint: process() reads one frame, dispatch offers it to every
    handler whose filter matches; a Call handler matches on service, object,
    action and id, takes the message and is removed (keep = false).  Call then
    returns what it got (client.go l.114-135).                               *)
-Matches(k, m) == SvcOf[k] = m.svc /\ ObjOf[k] = m.obj /\ ActOf[k] = m.act /\ mid[k] = m.id
+Matches(k, m) == /\ (Dev_FilterIgnoresService \/ SvcOf[k] = m.svc)
+                 /\ (Dev_FilterIgnoresObject  \/ ObjOf[k] = m.obj)
+                 /\ (Dev_FilterIgnoresAction  \/ ActOf[k] = m.act)
+                 /\ (Dev_FilterIgnoresId      \/ mid[k] = m.id)
 CliDispatch(c) ==
   /\ s2c[c] # <<>>
   /\ LET m == Head(s2c[c])
@@ -96,18 +125,65 @@ CliDispatch(c) ==
         /\ outcome' = [k \in Calls |-> IF k \in match THEN Append(outcome[k], [kind |-> m.type, val |-> m.val])
                                                       ELSE outcome[k]]
         /\ cst' = [k \in Calls |-> IF k \in match THEN "done" ELSE cst[k]]
-  /\ UNCHANGED <<c2s, sclosed, pclosed, srvAll, mid, ctr, rawSent>>
+  /\ UNCHANGED <<c2s, sclosed, pclosed, srvAll, mid, ctr, rawSent, wireVars>>
 
 CliNext ==
   \/ \E k \in Calls : NextID(k) \/ Register(k) \/ Send(k)
   \/ \E r \in Raws : SendRaw(r)
   \/ \E c \in Conns : CliDispatch(c)
 
-SysNext == \/ SrvNext /\ UNCHANGED <<sent, cliVars>>
+-----------------------------------------------------------------------------
+(* The wire as the peer sees it.  Every frame the server writes on a connection
+   is owed by exactly one Call written on that connection before (same service,
+   object, action and id) and pays that debt off: a Call is answered by at most
+   one frame, a Post (executed, queued or DROPPED by a saturated end point) by
+   none.  The error answers the code gives to one-way messages that reach no
+   method (missing service / object / action, undecodable arguments; see
+   PostNoResponse) are the named exemption.                                  *)
+Hdr4(m) == <<m.svc, m.obj, m.act, m.id>>
+RawCalls == {r \in Raws : r.type = "call"}
+ReqHdr(t) == IF t \in Calls THEN <<SvcOf[t], ObjOf[t], ActOf[t], mid[t]>>
+             ELSE Hdr4(CHOOSE r \in RawCalls : r.tag = t)
+Excused(c, f) == /\ f.type = "error" /\ f.val \in {"nosvc", "noobj", "noact", "badargs"}
+                 /\ \E r \in Raws : /\ r.conn = c /\ r.tag \in rawSent /\ r.type \in SrvAccept \ {"call"}
+                                     /\ Hdr4(r) = Hdr4(f)
+RECURSIVE PayOff(_, _, _)
+PayOff(c, ow, fs) ==
+  IF fs = <<>> THEN [ow |-> ow, bad |-> FALSE]
+  ELSE LET f == Head(fs)
+           cand == {t \in ow : ReqHdr(t) = Hdr4(f)}
+       IN IF cand # {} THEN PayOff(c, ow \ {CHOOSE t \in cand : TRUE}, Tail(fs))
+          ELSE IF Excused(c, f) THEN PayOff(c, ow, Tail(fs))
+          ELSE [ow |-> ow, bad |-> TRUE]
+(* server steps only append to s2c *)
+NewFrames(c) == SubSeq(s2c'[c], Len(s2c[c]) + 1, Len(s2c'[c]))
+Account ==
+  /\ owed' = [c \in Conns |-> PayOff(c, owed[c], NewFrames(c)).ow]
+  /\ unowed' = (unowed \/ \E c \in Conns : PayOff(c, owed[c], NewFrames(c)).bad)
+
+(* Deviations of the drop step of SrvRead (endPoint.dispatch on a full consumer
+   queue, endpoint.go l.343-350): the dropped Post is answered like a dropped
+   Call; the dropped Call is answered twice.                                  *)
+DevDrop(c) ==
+  /\ ~crashed /\ ~sclosed[c] /\ c2s[c] # <<>>
+  /\ LET m == Head(c2s[c])  e == ErrResp(m, "busy") IN
+       /\ m.type \in SrvAccept /\ Len(srvq[c]) >= QCap
+       /\ \/ /\ Dev_DroppedPostAnswered /\ m.type = "post"
+             /\ s2c' = [s2c EXCEPT ![c] = Append(@, e)]
+          \/ /\ Dev_DroppedCallAnsweredTwice /\ m.type = "call"
+             /\ s2c' = [s2c EXCEPT ![c] = @ \o <<e, e>>]
+       /\ respLog' = Logged(m, e)
+       /\ c2s' = [c2s EXCEPT ![c] = Tail(@)]
+  /\ UNCHANGED <<sclosed, pclosed, srvVars, histNoResp, rejected>>
+
+(* a step of the server seen from the composition *)
+Srv(A) == A /\ UNCHANGED <<sent, cliVars>> /\ Account
+
+SysNext == \/ Srv(SrvNext)
+           \/ \E c \in Conns : Srv(DevDrop(c))
            \/ CliNext
 SysSpec == SysInit /\ [][SysNext]_svars /\ WF_svars(SysNext)
 (* every goroutine keeps running: weak fairness of each of them *)
-Srv(A) == A /\ UNCHANGED <<sent, cliVars>>
 SysFairSpec ==
   /\ SysInit /\ [][SysNext]_svars
   /\ \A c \in Conns : WF_svars(Srv(SrvRead(c))) /\ WF_svars(Srv(ConsumerTake(c))) /\ WF_svars(Srv(ConsumerStep(c)))
@@ -135,6 +211,9 @@ ExecAtMostOnce == \A k \in Calls : Execs(k) <= 1
 WellFormedPost(r) == r.type = "post" /\ r.pl = "ok" /\ r.act \in Methods /\ <<r.svc, r.obj>> \in Objs
 PostAtMostOnce == \A r \in Raws : r.type = "post" => Execs(r.tag) <= 1
 PostNoResponse == \A r \in Raws : WellFormedPost(r) => ~\E x \in respLog : x.tag = r.tag
+(* ... on the wire: every frame the peer receives is owed by exactly one Call (a dropped Call is answered by
+   exactly one Error carrying its id, a dropped Post by nothing) *)
+FramesOwed == ~unowed
 (* messages of any other kind never cause a method to run *)
 OnlyCallAndPostExecute == \A i \in 1..Len(execLog) : execLog[i].type \in {"call", "post"}
 (* an application error is reported to the caller that caused it *)
